@@ -31,6 +31,8 @@ type cprog struct {
 	// Release: lock releases are scheduling points too (vsync.YieldAfterUnlock): whatever the tracker does
 	// between letting go of a lock and its next acquisition can be overtaken by the other threads
 	Release bool
+	// NoWritePoints: output writes are no scheduling points (a flush of a thousand held events)
+	NoWritePoints bool
 }
 
 // Cleanup ops inside programs use Cut=-1: the instant recorded after the
@@ -64,6 +66,7 @@ func (p *cprog) setup() *cinst {
 		}
 	}
 	w.concMode = true
+	w.Rec.NoPoints = p.NoWritePoints
 	in := &cinst{w: w, errs: make([][]string, len(p.Threads))}
 	return in
 }
@@ -239,6 +242,20 @@ func concPrograms(thorough bool) []*cprog {
 	ev4 := append(append([]SessDef{}, ev3...), SessDef{ID: "unset", PID: "103", Events: full4}, SessDef{ID: "", PID: "104", Events: full4})
 	ps = append(ps, &cprog{Name: "P10 session-less records from two threads || login", Sess: ev4, Logins: l2, Bound: -1,
 		Prefix: []Op{A(0, 0)}, Threads: [][]Op{{A(2, 0), A(2, 3), A(0, 1)}, {A(3, 3), A(2, 1), A(3, 0)}, {L(0)}}, Suffix: probe1})
+	// P11: a session that has collected more than a thousand records before its login arrives (a busy session,
+	// a slow sshd pipe): the flush of the hold queue is one step as far as the session's further records go -
+	// a record arriving meanwhile comes after everything held, whatever the flush does with the locks
+	// (scheduling points: lock acquisitions and releases; the 1100 writes themselves are not)
+	long := append(full4[:0:0], tLOGIN)
+	for i := 0; i < 1101; i++ {
+		long = append(long, tEV)
+	}
+	var held []Op
+	for i := 0; i < 1100; i++ {
+		held = append(held, A(0, i))
+	}
+	ps = append(ps, &cprog{Name: "P11 login flushing 1100 held records || the session's next record", Sess: []SessDef{{ID: "1", PID: "101", Events: long}, ev3[1]}, Logins: l2, Bound: -1,
+		NoWritePoints: true, Prefix: held, Threads: [][]Op{{L(0)}, {A(0, 1100), A(0, 1101)}}})
 	big := []*cprog{
 		{Name: "P2 login || LOGIN+EV || LOGIN+EV of another session", Sess: ev3, Logins: l2, Bound: -1,
 			Threads: [][]Op{{L(0)}, {A(0, 0), A(0, 1)}, {A(1, 0), A(1, 1)}}, Suffix: probe2},
@@ -417,6 +434,10 @@ func racePass() int {
 	n := 0
 	deadline := time.Now().Add(60 * time.Second)
 	for _, p := range concPrograms(true) {
+		iters := iters
+		if len(p.Prefix) > 100 {
+			iters /= 30 // (a prefix of a thousand calls costs what thirty ordinary executions cost)
+		}
 		for i := 0; i < iters && time.Now().Before(deadline); i++ {
 			in := p.setup()
 			var wg sync.WaitGroup
